@@ -1,4 +1,6 @@
-"""C15 — no response can crash the client.  PARTIAL: the model starts at decoded blocks."""
+"""C15 — no response can crash the client.  Coq: Client.v (decoded view) and MessageBytes.v (the reply's bytes:
+car.Decode + NewBlockReader + NewMessage + typed dag-cbor decoding), tied by C15_bytes_refines.  PARTIAL only for the
+reading of the receipts a report names (exercised under recover, not modelled)."""
 import glob, json, os, shutil, subprocess, tempfile
 import vlib
 from props import _bytes
@@ -65,7 +67,11 @@ def check(run):
                         "ReceiptReader.Read of every reported receipt and all accessors (Out, Ran, Fx, Meta, Issuer, Proofs, Signature, Root, Blocks) under recover; "
                         "error-vs-response and Get results of the structured replies compared with coq/Client.v; distinct = distinct (label, class, Get results, read/accessor outcomes)",
                    samples=stats["samples"][:6], classes=stats["classes"], http_framings=stats.get("http_framings"), structured_replies=stats["structured_replies"])
-    run.assumptions += ["model starts at decoded blocks (which roots/blocks/report the reply carries is construction knowledge of the harness)",
+    run.assumptions += ["byte-level model (coq/MessageBytes.v): the multihash digest function and go-ipld-cbor's verdict on a non-canonical CAR header are parameters, "
+                        "supplied per body by a reference walk that uses third-party code only; bindnode's acceptance of the AgentMessage schema (duplicate keys, strictness) "
+                        "was established by reading and experiment (notes/NOTES_BYTES.md) and is compared with the implementation on every body",
+                        "Client.v's structured cases still use the harness's construction knowledge (which roots / blocks / report a reply carries); the same bodies also go through the byte-level model",
+                        "reading the receipts a report names (NewReceipt, ReceiptReader.Read, accessors) is exercised under recover, not modelled",
                         "panics are observed with recover in the calling goroutine (the client code path starts no goroutine that could panic elsewhere)"]
 
 
